@@ -1,16 +1,6 @@
 (* Props/C02.v -- property C02: anchors and aliases are transparent. *)
-From SS Require Import Model.Live Proofs.LiveBasic.
+From SS Require Import Model.Live Proofs.LiveBasic Model.Expand Proofs.LiveExpand.
 Local Open Scope N_scope.
-
-(* Full statement of alias transparency (to be closed by the batch-expansion refinement, see
-   DESIGN.md C02): kept here as a type-checked definition while only the lemmas below are proved.
-   [erase_anchor] drops anchor ids; the expanded document is supplied by the harness oracle. *)
-Definition C02_full_statement : Prop :=
-  forall (use_peek : bool) (lim : alias_limits) (items items' : list raw_item) (n : nat),
-    (* items' = raw items of the alias-free expansion of the document behind items *)
-    p_error (pump n use_peek None false lim false items) = None ->
-    p_error (pump n use_peek None false lim false items') = None ->
-    True.
 
 (* An alias with no earlier anchor of that name in the same document is an error. *)
 Theorem C02_unknown_alias_is_error : forall s id sp r,
@@ -84,3 +74,52 @@ Check C02_scalar_anchor_neutral : forall s v st a tag sp r,
   | _, _ => False
   end.
 Print Assumptions C02_scalar_anchor_neutral.
+
+(* THE CENTRAL STATEMENT.  For EVERY document body (a forest of nodes with anchors and aliases anywhere:
+   on scalars, sequences, mappings, nested, re-defined, inside other anchored nodes) whose alias-free
+   expansion is defined -- every alias has a closed anchor of that id and the copies stay within the
+   alias limits -- the live pump, fed the parser items of that body, delivers EXACTLY the expansion:
+   the same events in the same order, every alias replaced by a verbatim copy of the events of the
+   node most recently anchored under its id.  (Stated for a node in any context: [Inv] describes the
+   pump between two nodes, [Post] what the node did to it; the next theorem instantiates it for a
+   whole stream read from a fresh pump.) *)
+Theorem C02_node_delivers_its_expansion : forall n lim open st out st' s rest,
+  expand lim open st n = Some (out, st') -> lv_limits s = lim -> xstate s = st -> Inv s open ->
+  exists s', steps s (lin n ++ rest) out s' rest /\ Post s s' out st'.
+Proof. exact node_delivers_its_expansion. Qed.
+Check C02_node_delivers_its_expansion : forall n lim open st out st' s rest,
+  expand lim open st n = Some (out, st') -> lv_limits s = lim -> xstate s = st -> Inv s open ->
+  exists s', steps s (lin n ++ rest) out s' rest /\ Post s s' out st'.
+Print Assumptions C02_node_delivers_its_expansion.
+
+Theorem C02_document_delivers_its_expansion : forall lim b sp0 sp1 sp2 sp3 f out st',
+  expand_forest lim [] (mkX [] 0 []) f = Some (out, st') -> out <> [] ->
+  exists s', deliveries (S (length out)) (live_new None false lim false) (doc_items b sp0 sp1 sp2 sp3 f)
+             = (out, Eos s' []).
+Proof. exact document_delivers_its_expansion. Qed.
+Check C02_document_delivers_its_expansion : forall lim b sp0 sp1 sp2 sp3 f out st',
+  expand_forest lim [] (mkX [] 0 []) f = Some (out, st') -> out <> [] ->
+  exists s', deliveries (S (length out)) (live_new None false lim false) (doc_items b sp0 sp1 sp2 sp3 f)
+             = (out, Eos s' []).
+Print Assumptions C02_document_delivers_its_expansion.
+
+(* Non-vacuity: `- &a [x]` followed by two aliases of it, inside an anchored outer sequence that is
+   aliased again afterwards: the expansion is defined and holds three, then six, copies. *)
+Example C02_expansion_example :
+  let sp := mkSpan (mkMark 0 1 0 (Some 0)) (mkMark 1 1 1 (Some 1)) in
+  let inner := NSeq 2 None sp (FCons (NScalar [120] Plain 0 None sp) FNil) sp in
+  let outer := NSeq 1 None sp (FCons inner (FCons (NAlias 2 sp) (FCons (NAlias 2 sp) FNil))) sp in
+  match expand_forest default_alias_limits [] (mkX [] 0 []) (FCons outer (FCons (NAlias 1 sp) FNil)) with
+  | Some (out, st) => (length out =? 22)%nat && (x_replayed st =? 17) = true
+  | None => False
+  end.
+Proof. vm_compute. reflexivity. Qed.
+Check C02_expansion_example :
+  let sp := mkSpan (mkMark 0 1 0 (Some 0)) (mkMark 1 1 1 (Some 1)) in
+  let inner := NSeq 2 None sp (FCons (NScalar [120] Plain 0 None sp) FNil) sp in
+  let outer := NSeq 1 None sp (FCons inner (FCons (NAlias 2 sp) (FCons (NAlias 2 sp) FNil))) sp in
+  match expand_forest default_alias_limits [] (mkX [] 0 []) (FCons outer (FCons (NAlias 1 sp) FNil)) with
+  | Some (out, st) => (length out =? 22)%nat && (x_replayed st =? 17) = true
+  | None => False
+  end.
+Print Assumptions C02_expansion_example.
